@@ -364,14 +364,38 @@ func (t *Teamserver) Start() {
 				continue
 			}
 
+			/* an empty list is stored as "" and must come back as an empty list, not as [""] */
+			var splitList = func(s string) []string {
+				if len(s) == 0 {
+					return nil
+				}
+				return strings.Split(s, ", ")
+			}
+
 			/* set config of http listener */
-			HandlerData.Hosts = strings.Split(Data["Hosts"].(string), ", ")
+			HandlerData.Hosts = splitList(Data["Hosts"].(string))
 			HandlerData.HostBind = Data["HostBind"].(string)
 			HandlerData.HostRotation = Data["HostRotation"].(string)
 			HandlerData.PortBind = Data["PortBind"].(string)
 			HandlerData.UserAgent = Data["UserAgent"].(string)
-			HandlerData.Headers = strings.Split(Data["Headers"].(string), ", ")
-			HandlerData.Uris = strings.Split(Data["Uris"].(string), ", ")
+			HandlerData.Headers = splitList(Data["Headers"].(string))
+			HandlerData.Uris = splitList(Data["Uris"].(string))
+
+			/* the remaining settings of the operator dialog are stored as well: take them back */
+			if val, ok := Data["PortConn"].(string); ok {
+				HandlerData.PortConn = val
+			}
+			if val, ok := Data["HostHeader"].(string); ok {
+				HandlerData.HostHeader = val
+			}
+			if val, ok := Data["Proxy Enabled"].(bool); ok && val {
+				HandlerData.Proxy.Enabled = true
+				HandlerData.Proxy.Type, _ = Data["Proxy Type"].(string)
+				HandlerData.Proxy.Host, _ = Data["Proxy Host"].(string)
+				HandlerData.Proxy.Port, _ = Data["Proxy Port"].(string)
+				HandlerData.Proxy.Username, _ = Data["Proxy Username"].(string)
+				HandlerData.Proxy.Password, _ = Data["Proxy Password"].(string)
+			}
 			HandlerData.BehindRedir = t.Profile.Config.Demon.TrustXForwardedFor
 
 			HandlerData.Secure = false
